@@ -122,6 +122,13 @@ def rcall(ex, b, n, args):
         y = ex.fresh_real('sqrt'); ex.axioms.append(z3.And(y >= 0, y * y == x)); ex.oblige('domain', x < 0, 'sqrt of negative'); return RV(n, y)
     if b == 'fabs': return RV(n, z3.If(x >= 0, x, -x))
     if b == 'floor': return RV(n, z3.ToReal(z3.ToInt(x)))
+    if b == 'ceil': return RV(n, -z3.ToReal(z3.ToInt(-x)))
+    if b == 'trunc': return RV(n, z3.If(x >= 0, z3.ToReal(z3.ToInt(x)), -z3.ToReal(z3.ToInt(-x))))
+    if b == 'fmod':
+        y = args[1].r; r = ex.fresh_real('fmod'); ex.nfresh += 1; k = z3.Int('fmodq!%d' % ex.nfresh)
+        ay = z3.If(y >= 0, y, -y)
+        ex.axioms.append(z3.And(x == z3.ToReal(k) * y + r, z3.If(x >= 0, z3.And(r >= 0, r < ay), z3.And(r <= 0, r > -ay))))
+        ex.oblige('domain', y == 0, 'fmod by zero'); return RV(n, r)
     if b in ('fma', 'fmuladd'): return RV(n, x * args[1].r + args[2].r)
     if b in ('minnum', 'fmin'): return RV(n, z3.If(args[1].r < x, args[1].r, x))
     if b in ('maxnum', 'fmax'): return RV(n, z3.If(args[1].r > x, args[1].r, x))
